@@ -265,6 +265,9 @@ func newState(rng *vh.Rng, idx int) *state {
 	// variables of the declared types
 	addVar := func(v varDecl, typ string) {
 		v.Name = pick(rng, topPool, usedTop)
+		if v.Name == "_" {
+			return // (gomacro rejects "var _ T" for non-basic T with an index-out-of-range panic; not this property)
+		}
 		if st.eval(fmt.Sprintf("var %s %s", v.Name, typ)) {
 			st.vars = append(st.vars, v)
 			decl(v.Name)
